@@ -453,3 +453,66 @@ func (f Fact) SaysEmpty(v ssa.Value) bool {
 	}
 	return (r.Op == token.EQL && n == 0) || (r.Op == token.LEQ && n == 0) || (r.Op == token.LSS && n == 1)
 }
+
+// UniqueEdgeInto: when the facts holding at instruction at determine over
+// which predecessor edge control entered block b (a phi in b is known to have
+// a value only one of its operands can have), the index of that predecessor.
+func UniqueEdgeInto(b *ssa.BasicBlock, at ssa.Instruction) (int, bool) {
+	for _, f := range FactsAtInstr(at) {
+		rel := f.Rel()
+		var phi *ssa.Phi
+		cands := []int{}
+		switch {
+		case rel.Op == token.ILLEGAL:
+			p, ok := rel.B.(*ssa.Phi)
+			if !ok || p.Block() != b {
+				continue
+			}
+			phi = p
+			for i, e := range phi.Edges {
+				if cb, isC := ConstBool(e); isC && cb != rel.Pol {
+					continue
+				}
+				cands = append(cands, i)
+			}
+		case (rel.Op == token.EQL || rel.Op == token.NEQ) && IsNilConst(rel.Y):
+			p, ok := rel.X.(*ssa.Phi)
+			if !ok || p.Block() != b {
+				continue
+			}
+			phi = p
+			for i, e := range phi.Edges {
+				if rel.Op == token.NEQ && IsNilConst(e) {
+					continue
+				}
+				if rel.Op == token.EQL && i < len(b.Preds) && nonNilAtEdge(e, b.Preds[i], b, 1) {
+					continue
+				}
+				cands = append(cands, i)
+			}
+		default:
+			continue
+		}
+		if phi != nil && len(cands) == 1 {
+			return cands[0], true
+		}
+	}
+	return -1, false
+}
+
+// Resolve replaces a phi by the operand it must have at instruction at, when
+// the facts at that instruction determine the edge (see UniqueEdgeInto).
+func Resolve(at ssa.Instruction, v ssa.Value) ssa.Value {
+	for d := 0; d < 4; d++ {
+		phi, ok := v.(*ssa.Phi)
+		if !ok {
+			return v
+		}
+		i, ok := UniqueEdgeInto(phi.Block(), at)
+		if !ok || i >= len(phi.Edges) {
+			return v
+		}
+		v = phi.Edges[i]
+	}
+	return v
+}
